@@ -11,29 +11,55 @@ import (
 )
 
 type InternT struct {
-	S string      `plenc:"1,intern"`
-	N null.String `plenc:"2,intern"`
-	L []InternE   `plenc:"3"`
+	S string             `plenc:"1,intern"`
+	N null.String        `plenc:"2,intern"`
+	L []InternE          `plenc:"3"`
 	M map[string]InternE `plenc:"4"`
 }
 type InternE struct {
 	X string `plenc:"1,intern"`
 }
 type PlainT struct {
-	S string      `plenc:"1"`
-	N null.String `plenc:"2"`
-	L []PlainE    `plenc:"3"`
+	S string            `plenc:"1"`
+	N null.String       `plenc:"2"`
+	L []PlainE          `plenc:"3"`
 	M map[string]PlainE `plenc:"4"`
 }
 type PlainE struct {
 	X string `plenc:"1"`
 }
 
+// sweepStrings: the systematic histories run before the random ones - every
+// single byte value, and strings at every length boundary.
+func sweepStrings(h int) []string {
+	switch h {
+	case 0, 1:
+		out := make([]string, 0, 128)
+		for b := h * 128; b < (h+1)*128; b++ {
+			out = append(out, string([]byte{byte(b)}))
+		}
+		return out
+	case 2:
+		var out []string
+		for _, n := range []int{0, 1, 2, 3, 7, 8, 9, 15, 16, 17, 31, 32, 33, 63, 64, 65, 127, 128, 129, 255, 256, 257, 1023, 1024, 1025} {
+			out = append(out, strings.Repeat("\xc3", n), strings.Repeat("z", n))
+		}
+		return out
+	}
+	return nil
+}
+
 func internStrings(r *RNG, n int) []string {
 	pool := []string{"", "a", "ab", "abc", "abcd", "\x00", "\x00\x01", "key", "value", strings.Repeat("x", 130), "héllo", "\xff\xfe"}
 	out := make([]string, n)
 	for i := range out {
-		switch r.Intn(4) {
+		switch r.Intn(5) {
+		case 4:
+			b := make([]byte, []int{1, 1, 1, 2, 3, 8}[r.Intn(6)]) // binary, mostly very short
+			for j := range b {
+				b[j] = byte(r.Intn(256))
+			}
+			out[i] = string(b)
 		case 0:
 			out[i] = fmt.Sprintf("new-%d-%d", i, r.Intn(1000)) // new
 		case 1:
@@ -65,7 +91,11 @@ func runC19(c *Ctx) {
 	for h := 0; h < nh; h++ {
 		pi := newInstance(cfg) // interned type and its twin on one instance
 		steps := 5 + c.rng.Intn(25)
-		inputs := internStrings(c.rng, steps)
+		inputs := sweepStrings(h)
+		if inputs == nil {
+			inputs = internStrings(c.rng, steps)
+		}
+		steps = len(inputs)
 		var results []string
 		type kept struct {
 			got  InternT
